@@ -24,6 +24,8 @@ def var_jobs(tier, prop):
 def jobs(tier, ws):
     js = []
     js += var_jobs(tier, 'C19')
+    import C07
+    js.append(C07.copy_att_job('C19'))   # copy into an existing attribute stays inside its value buffer
     # the C04 parser jobs run with arbitrary file content and length: their safety obligations are C19's
     sel = [j for j in C04.jobs(tier, ws, prop='C19') if ('inj0' in j.name or 'hdr_get_uint64' in j.name or '/n8' in j.name or 'oversize' in j.name)]
     return js + (sel[:12] if tier == 'quick' else sel)
